@@ -7,6 +7,7 @@ package main
 
 import (
 	"fmt"
+	"math"
 	"os"
 	"path/filepath"
 	"sort"
@@ -654,6 +655,36 @@ func peakRateSuite() hlib.Suite {
 					r.Fail("C14/peak-rate-meaning", "unit="+u, fmt.Sprintf("the tick at the peak requests %d, the string spells %.4g per second", got, tps), input)
 				}
 				r.Distinct("accepted " + u)
+			}
+		}
+		// boundary values of the bell's parameters: rejected, or a rate function whose values are numbers
+		// (a NaN or an infinity converted to an integer shows as the extreme int64 values)
+		for _, sd := range []string{"0s", "1ns", "1ms"} {
+			for _, extra := range [][]string{nil, {"peak-rate", "5/s"}, {"volume", "0"}, {"repeat", "1s", "iteration-frequency", "1s"}} {
+				r.Eval()
+				flags := map[string]string{"standard-deviation": sd, "distribution": "none", "jitter": "0"}
+				for i := 0; i+1 < len(extra); i += 2 {
+					flags[extra[i]] = extra[i+1]
+				}
+				input := fmt.Sprintf("f1 run gaussian --standard-deviation %s %v", sd, extra)
+				r.SampleCase(input)
+				tr, _, err := (&hlib.RunSpec{Mode: "gaussian", Flags: flags}).BuildTrigger()
+				if err != nil {
+					r.Distinct("rejected sd=" + sd)
+					continue
+				}
+				for k := 0; k < 5; k++ {
+					var got int
+					if p, pv := hlib.Catch(func() { got = tr.DryRun(time.Date(2024, 1, 1, 14, 0, k, 0, time.UTC)) }); p {
+						r.Fail("C14/gaussian-boundary-panics", "sd="+sd, fmt.Sprint(pv), input)
+						break
+					}
+					if got == math.MinInt64 || got == math.MaxInt64 {
+						r.Fail("C14/unusable-rate-function", "not-a-number/sd="+sd, fmt.Sprintf("accepted, but the rate function returns %d: a NaN or an infinity converted to an integer", got), input)
+						break
+					}
+				}
+				r.Distinct("accepted sd=" + sd)
 			}
 		}
 		r.Sample(map[string]any{"counts": counts, "units": units})
